@@ -653,7 +653,17 @@ func genPlanOpt(seed uint64, prop string, cold bool) *Plan {
 			p.Preempt = append(p.Preempt, nil)
 		}
 		maxGap := []int{30, 150, 600, 3000}[r.intn(4)]
-		p.Preempt[victim] = []int64{int64(1 + r.intn(maxGap))}
+		if r.chance(0.4) {
+			// ... parked AT a synchronisation operation instead (its k-th lock,
+			// atomic or pool operation): the windows that matter lie between two
+			// of those, and there are few of them per call
+			for k := r.intn([]int{4, 12, 40, 160}[r.intn(4)]); k > 0; k-- {
+				p.Sched = append(p.Sched, 0)
+			}
+			p.Sched = append(p.Sched, 1)
+		} else {
+			p.Preempt[victim] = []int64{int64(1 + r.intn(maxGap))}
+		}
 		if r.chance(0.7) {
 			// ... or only until a random later scheduling point
 			k := r.intn(3*nOps + 8)
@@ -901,6 +911,9 @@ func genSweep(r *rng, p *Plan) (nTasks, nParse int) {
 	ver := pickVer(r, 0.25)
 	sp := specs[ver]
 	nTasks = 1 + r.intn(2)
+	if r.chance(0.25) {
+		nTasks = 3 + r.intn(4) // tables indexed by a hash of the value: collisions between goroutines
+	}
 	n := []int{100, 200, 400}[r.intn(3)]
 	anc := anchors(ver)
 	parseSweep := r.chance(0.4)
